@@ -25,8 +25,8 @@ theorem preD_network_of_f64 (M : F64Mod K) (rt : RootData R M.k) (fl : Flags) (h
     obtain ⟨hx, Mv, hm, _⟩ := h
     exact ⟨hx, Mv, hm, trivial⟩
   | vmpDD d x m =>
-    obtain ⟨P, Mv, hP, hm, _⟩ := h
-    exact ⟨P, Mv, hP, hm, trivial⟩
+    obtain ⟨hne, P, Mv, hP, hm, _⟩ := h
+    exact ⟨hne, P, Mv, hP, hm, trivial⟩
   | idft d x =>
     obtain ⟨hd, P, hP, _⟩ := h
     exact ⟨hd, P, hP, trivial⟩
